@@ -834,3 +834,48 @@ func H_C10_derived_extractors_on_an_open_base() {
 	vAssert("no-handle-left-open", vOpenFiles() == 0)
 	vReach("end")
 }
+
+// H_C02_stream_length_faults: a stream's /Length is a number from the file: replaced by the catalogue values, or by a
+// reference that leads back to the stream itself, every entry point still returns a value or an error.
+//
+//symgo:harness prop=C02 kernel=whole-file-stream-length-faults hang=1 depth=400 loop=100000 steps=80000000
+//symgo:desc one-page PDF from the harness-local writer through the file content model; the content stream's /Length is (enumerated) a reference to the stream object itself, a reference to a second stream whose /Length refers back to the first, or one of 9223372036854775807, 2147483648, -1, 0; classic table or cross-reference stream (enumerated): Open/PageCount/Text/Close return without run-time panic, without an allocation sized from the number (allocation budget), within call depth 400 and the loop/step bounds
+func H_C02_stream_length_faults() {
+	xs := vAnyIntIn(0, 1) == 1
+	w := &vPDFWriter{eol: "\n", offsets: map[int]int{}}
+	if xs {
+		w.packed = map[int]string{}
+	}
+	w.write("%PDF-1.5\n")
+	w.obj(1, "<< /Type /Catalog /Pages 2 0 R >>")
+	w.obj(2, "<< /Type /Pages /Kids [3 0 R] /Count 1 /MediaBox [0 0 612 792] >>")
+	w.obj(3, "<< /Type /Page /Parent 2 0 R /Resources << /Font << /F1 4 0 R >> >> /Contents 5 0 R >>")
+	w.obj(4, "<< /Type /Font /Subtype /Type1 /BaseFont /Helvetica /Encoding /WinAnsiEncoding >>")
+	data := "BT /F1 12 Tf 72 720 Td (Hello) Tj ET"
+	nums := []int{1, 2, 3, 4, 5}
+	switch vAnyIntIn(0, 5) {
+	case 0:
+		w.stream(5, "/Length 5 0 R", data)
+	case 1:
+		w.stream(5, "/Length 6 0 R", data)
+		w.stream(6, "/Length 5 0 R", "12")
+		nums = append(nums, 6)
+	case 2:
+		w.stream(5, "/Length 9223372036854775807", data)
+	case 3:
+		w.stream(5, "/Length 2147483648", data)
+	case 4:
+		w.stream(5, "/Length -1", data)
+	default:
+		w.stream(5, "/Length 0", data)
+	}
+	w.xref(xs, xs, -1, nums, nil, 8, 9, 10)
+	name := "/tmp/symgo-replay-c02l.pdf"
+	vFileContent(name, string(w.buf))
+	e := Open(name)
+	_, _ = e.PageCount()
+	_, _, _ = e.Text()
+	_, _, _ = Open(name).ToMarkdown()
+	_ = e.Close()
+	vReach("end")
+}
